@@ -52,10 +52,16 @@ func Parse(yangfiles, path []string) (map[string]*yang.Entry, []error) {
 		return nil, errs
 	}
 
+	// ms.Modules files every module under its bare name and under
+	// name@revision; the bare name denotes the most recent revision loaded.
+	// Only those entries are returned: picking whichever revision the map
+	// iteration happens to visit last made the result differ between runs.
 	entries := make(map[string]*yang.Entry)
-	for _, m := range ms.Modules {
-		e := yang.ToEntry(m)
-		entries[e.Name] = e
+	for name, m := range ms.Modules {
+		if name != m.Name {
+			continue
+		}
+		entries[name] = yang.ToEntry(m)
 	}
 
 	return entries, nil
